@@ -13,7 +13,7 @@ PROPERTIES = ["C17"]
 MANIFEST = {
     "C17": {
         "technique": "Lean 4 proof (model of Sha256.cpp/Sha256.hpp over constants and macro bodies re-translated from the current sources on every run, proved equal to FIPS 180-4 / RFC 2104 written independently) + differential correspondence real code vs model vs Python hashlib/hmac",
-        "text": "Kernel-checked theorems for ALL messages, chunkings and keys (no size bound other than the standard's own 2^64-bit limit): the generated K/H0 are the constants of the standard (defined as cube/square roots of the first primes, roots proved exact), the generated macro bodies S0 S1 s0 s1 Ch Maj are the functions of FIPS 4.1.2, one Transform call (rolling 16-word window, rotating register index, macro R) equals the FIPS compression function, update/finalize over any list of chunks equals the FIPS digest of the concatenation (one- and two-block padding cases), the hasher is reusable after construction/finalize/reset, Sha256::hmac equals RFC 2104 for keys shorter than, equal to and longer than the block size.  Tie to the current sources on every run: tables, header constants and macro bodies are re-translated (g++ -E -dD + expression translator) and all theorems are re-checked over them; the hand-written control flow of the model is executed against the real code (ASan/UBSan) on identical op lines - all lengths 0..300 x all 2-way splits, lengths 0..70 x all 3-way splits, sampled 3-way splits with interleaved reset/finalize, lengths to 70000, keys 0..200 (quick tier: seed-chosen slices) - and every digest is also compared with Python hashlib/hmac.",
+        "text": "Kernel-checked theorems for ALL messages, chunkings and keys (no size bound other than the standard's own 2^64-bit limit): the generated K/H0 are the constants of the standard (defined as cube/square roots of the first primes, roots proved exact), the generated macro bodies S0 S1 s0 s1 Ch Maj are the functions of FIPS 4.1.2, one Transform call (rolling 16-word window, rotating register index, macro R) equals the FIPS compression function, update/finalize over any list of chunks equals the FIPS digest of the concatenation (one- and two-block padding cases), the hasher is reusable after construction/finalize/reset, Sha256::hmac equals RFC 2104 for keys shorter than, equal to and longer than the block size.  Tie to the current sources on every run: tables, header constants and macro bodies are re-translated (g++ -E -dD + expression translator) and all theorems are re-checked over them; the hand-written control flow of the model is executed against the real code (ASan/UBSan) on identical op lines - all lengths 0..300 x all 2-way splits, lengths 0..70 x all 3-way splits, sampled 3-way splits with interleaved reset/finalize, lengths to 70000, keys 0..200 (quick tier: seed-chosen slices) - and every digest is also compared with Python hashlib/hmac; two further streams pass empty inputs as (nullptr, 0) and preset `count` (white box) to multiples of 64 up to 2^64-64 so that the upper bytes of the 64-bit length field are exercised.",
         "note": "Trusted: Lean kernel + the three standard axioms; the translator tools/gen_sha.py (small C-expression translator for the macro bodies; it refuses what it cannot translate faithfully, e.g. unsequenced side effects or _SHA256_UNROLL2; its output is exercised by the correspondence run); the hand translation of the control flow of update/finalize/Transform/WriteByteBlock/hash/hmac into Model.lean (validated by the correspondence run, not proved); my transcription of FIPS 180-4 / RFC 2104 in Spec.lean (kernel-evaluated on the NIST 'abc', empty, two-block vectors and RFC 4231 case 1, and compared with Python hashlib/hmac through the driver on every run: tests).  Modelled, not verified: C arrays are Lean lists read with getD/set (an out-of-range access would be a silent no-op in the model; the macro index expressions are proved in range, buffer positions are in range by the streaming invariant, and the harness runs the real code under ASan with the object in an exactly sized heap block); Transform's uninitialised W[16] is zeros in the model.  Hypothesis of the theorems: fewer than 2^61 bytes per digest (= the 2^64-bit limit of FIPS 180-4; beyond it count<<3 wraps).  No theorem is partial; there is no OPEN statement.",
         "design_ref": "DESIGN.md 3/C17",
     }
@@ -40,13 +40,76 @@ def unhx(t):
     return b"" if t == "-" else bytes.fromhex(t)
 
 
+# ---- pure-Python SHA-256 with a preset byte count (for the white-box stream only; hashlib has no such entry) ---
+def _primes(n):
+    ps, c = [], 2
+    while len(ps) < n:
+        if all(c % p for p in ps):
+            ps.append(c)
+        c += 1
+    return ps
+
+
+def _iroot(k, n):
+    lo, hi = 0, 1 << 48
+    while lo + 1 < hi:
+        mid = (lo + hi) // 2
+        lo, hi = (mid, hi) if mid ** k <= n else (lo, mid)
+    return lo
+
+
+_K = [_iroot(3, p << 96) & 0xFFFFFFFF for p in _primes(64)]
+_H0 = [_iroot(2, p << 64) & 0xFFFFFFFF for p in _primes(8)]
+
+
+def py_sha256(msg, preset=0):
+    """FIPS 180-4 SHA-256 of `msg` as if `preset` bytes (a multiple of 64) had been absorbed before with
+    the chaining value still H0 - i.e. exactly what the white-box op `setcount` sets up"""
+    M = 0xFFFFFFFF
+    rotr = lambda x, n: ((x >> n) | (x << (32 - n))) & M
+    total = preset + len(msg)
+    data = msg + b"\x80" + bytes((55 - len(msg)) % 64) + ((8 * total) % 2 ** 64).to_bytes(8, "big")
+    H = list(_H0)
+    for off in range(0, len(data), 64):
+        W = [int.from_bytes(data[off + 4 * i:off + 4 * i + 4], "big") for i in range(16)]
+        for t in range(16, 64):
+            s0 = rotr(W[t - 15], 7) ^ rotr(W[t - 15], 18) ^ (W[t - 15] >> 3)
+            s1 = rotr(W[t - 2], 17) ^ rotr(W[t - 2], 19) ^ (W[t - 2] >> 10)
+            W.append((s1 + W[t - 7] + s0 + W[t - 16]) & M)
+        a, b, c, d, e, f, g, h = H
+        for t in range(64):
+            t1 = (h + (rotr(e, 6) ^ rotr(e, 11) ^ rotr(e, 25)) + ((e & f) ^ (~e & M & g)) + _K[t] + W[t]) & M
+            t2 = ((rotr(a, 2) ^ rotr(a, 13) ^ rotr(a, 22)) + ((a & b) ^ (a & c) ^ (b & c))) & M
+            a, b, c, d, e, f, g, h = (t1 + t2) & M, a, b, c, (d + t1) & M, e, f, g
+        H = [(x + y) & M for x, y in zip(H, (a, b, c, d, e, f, g, h))]
+    return b"".join(x.to_bytes(4, "big") for x in H).hex()
+
+
 # ---- reference: Python hashlib / hmac (independent of the Lean model) -----------------------------
 def reference(hist):
     h = hashlib.sha256()
     out = []
+    whitebox = None          # after `setcount n`: (n, bytes fed since) - hashlib cannot follow, py_sha256 does
     for line in hist:
         t = line.split()
         try:
+            if t[0] == "setcount" and len(t) == 2:
+                n = int(t[1])
+                if n % 64 == 0 and n < 2 ** 64:
+                    whitebox = (n, b"")
+                    out.append("ok")
+                else:
+                    out.append("bad-op")
+                continue
+            if whitebox is not None and t[0] in ("update", "updatenull"):
+                whitebox = (whitebox[0], whitebox[1] + (unhx(t[1]) if t[0] == "update" else b""))
+                out.append("ok")
+                continue
+            if whitebox is not None and t[0] in ("final", "rst"):
+                out.append(py_sha256(whitebox[1], whitebox[0]) if t[0] == "final" else "ok")
+                whitebox = None
+                h = hashlib.sha256()
+                continue
             if t[0] == "update" and len(t) == 2:
                 h.update(unhx(t[1]))
                 out.append("ok")
@@ -209,6 +272,24 @@ def null_histories(rng):
     return hs
 
 
+def count_histories(rng, n=40):
+    """white box: preset `count` to a multiple of 64 near the interesting powers of two, feed a few
+    bytes, finalize (reaches the upper bytes of the 64-bit length field and the (UInt32) cast of
+    count; beyond 2^61 bytes the oracle wraps the bit count like the code); the hasher is then reused for a hashlib-checked digest"""
+    hs = []
+    bases = [2 ** 32 - 64, 2 ** 32, 2 ** 32 + 64, 2 ** 29 - 64, 2 ** 29, 2 ** 35, 2 ** 40 + 2 ** 33, 2 ** 48, 2 ** 56, 2 ** 56 - 64,
+             2 ** 61 - 128, 2 ** 61 - 64, 2 ** 61, 2 ** 63, 2 ** 64 - 64]
+    for _ in range(n):
+        c = rng.choice(bases) if rng.random() < 0.7 else 64 * rng.randrange(2 ** 58)
+        h = [f"setcount {c}"]
+        for _ in range(rng.randrange(0, 4)):
+            h.append(f"update {hx(rbytes(rng, rng.choice([0, 1, 55, 56, 63, 64, 65, rng.randrange(200)])))}")
+        m = rbytes(rng, rng.randrange(100))
+        h += ["final", f"update {hx(m)}", "final"]
+        hs.append(h)
+    return hs
+
+
 def histories_for(ctx):
     rng = ctx.rng
     quick = ctx.tier == "quick"
@@ -338,6 +419,17 @@ def check(ctx):
         nd = C.differential(ctx, harness, C.driver_path(DRIVER), nh, reference, C.default_eq, nontrivial=nontrivial, chunk=1)
         ctx.log(f"null-argument stream: {len(nh)} histories, {len(nd)} disagreement(s)")
         report(ctx, nd, harness, C.driver_path(DRIVER), "sha-null-args")
+        for n in (0, 1, 55, 56, 63, 64, 65, 119, 120, 200, 1000):       # self-test of the pure-Python oracle
+            m = rbytes(ctx.rng, n)
+            if py_sha256(m) != hashlib.sha256(m).hexdigest():
+                ctx.broken.append("check machinery: py_sha256 disagrees with hashlib")
+        ch = count_histories(ctx.rng, 40 if ctx.tier == "quick" else 2000)
+        ops["setcount"] = len(ch)
+        cd = C.differential(ctx, harness, C.driver_path(DRIVER), ch, reference, C.default_eq, nontrivial=nontrivial)
+        ctx.log(f"count-width stream (white box): {len(ch)} histories, {len(cd)} disagreement(s)")
+        report(ctx, cd, harness, C.driver_path(DRIVER), "sha-count-width")
+        ctx.cov["rule"] += (f"; + stream 'sha-null-args' ({len(nh)} histories: empty inputs passed as (nullptr, 0)); + white-box stream 'sha-count-width' "
+                            f"({len(ch)} histories: count preset to multiples of 64 up to 2^64-64, real code vs model vs a pure-Python FIPS implementation with preset length, self-tested against hashlib)")
     finally:
         try:
             harness.unlink()
